@@ -140,10 +140,14 @@ def ref_schedule(eps_py, conns, slots, supervisor, prune, max_err=8):
         if not prune:
             # pruning off: every vertex that finishes before a supervisor step (inside the horizon) starts is executed
             # within the horizon (the statement does not say in which partition: only ancestors are bound to <= p)
+            # This clause is about vertices no supervisor step depends on (sinks, tails). A vertex that only a supervisor
+            # step *beyond* the horizon depends on (ragged stacks: the horizon is the shortest episode) belongs to that
+            # step's partition and is not demanded inside the horizon.
             sup_start = {s: a for (s, a, _) in ep["vertices"][supervisor]}
+            dep_any = rw.ancestors([(supervisor, s) for s in sup_start]) | {(supervisor, s) for s in sup_start}
             for kind, vs in ep["vertices"].items():
                 for (s, a, b) in vs:
-                    if (kind, s) not in needed and any(b <= sup_start[p] for p in range(P)):
+                    if (kind, s) not in needed and (kind, s) not in dep_any and any(b <= sup_start[p] for p in range(P)):
                         needed[(kind, s)] = P - 1
         stats["needed"] += len(needed)
         for key, p in needed.items():
